@@ -3,6 +3,7 @@ import DnsVerif.Props.C11
 import DnsVerif.Lemmas.EncLimMsg
 import DnsVerif.Lemmas.ExtraA
 import DnsVerif.Lemmas.ApiOk
+import DnsVerif.Lemmas.ApiOkConv
 
 /-! # C08 — encode reports an error instead of emitting an out-of-range message
 
@@ -283,5 +284,111 @@ theorem classes_violate :
   obtain ⟨d3, h3⟩ := ApiOk.k4bMsg_decoded
   exact ⟨⟨_, d1, ApiOk.k3Msg_spec.2.2.2.2.2.2, h1⟩, ⟨_, d2, ApiOk.k4aMsg_spec.2.2.2.2.2.2, h2⟩,
     ⟨_, d3, ApiOk.k4bMsg_spec.2.2.2.2.2.2, h3⟩, ⟨_, ApiOk.k4cMsg_spec.2.2.2.2.2.2, ApiOk.k4cMsg_decoded⟩⟩
+
+
+/-! ## The converse, for EVERY value: membership in a class breaks the round trip
+
+`classes_violate` shows it on four witnesses; here for all values. Part A: a value in one of the classes
+is never what `Dns::decode` returns (on any input, up to `Msg.norm`), so the classification is EXACT
+(`api_roundtrip_iff`). Part B: what happens instead, class by class. -/
+
+/-- a value in K3 / K4a / K4b / K4c is not the result of decoding ANY octets, up to `norm` -/
+theorem class_never_decoded {m : Msg} (hk : Finding.K3 m ∨ Finding.K4a m ∨ Finding.K4b m ∨ Finding.K4c m)
+    {b : Bytes} {m' : Msg} {d : D} (hd : decodeDns b = .ok (m', d)) : m'.norm ≠ m.norm :=
+  ApiOkConv.never_decoded hk hd
+
+/-- **the classification is exact**: an API-constructible value that `encode` accepts decodes back to the
+same value (up to `norm`) IF AND ONLY IF it is in none of the four classes -/
+theorem api_roundtrip_iff {m : Msg} {b : Bytes} (ha : ApiOk m) (h : encodeDns m = .ok b) :
+    (∃ m' d, decodeDns b = .ok (m', d) ∧ m'.norm = m.norm) ↔
+      ¬ (Finding.K3 m ∨ Finding.K4a m ∨ Finding.K4b m ∨ Finding.K4c m) := ApiOkConv.roundtrip_iff ha h
+
+/-- the same for one record: a record in K4a / K4b / K4c is never the result of `RR::decode` -/
+theorem class_rr_never_decoded {rr : RR} (hk : Finding.K4aRR rr ∨ Finding.K4bRR rr ∨ Finding.K4cRR rr) {b : Bytes}
+    (hb : b.length < 2 ^ 63) {rr' : RR} {d : D} (hd : decodeRR b = .ok (rr', d)) : rr'.norm ≠ rr.norm :=
+  ApiOkConv.rr_never_decoded hk hb hd
+
+/-- **K3**: whatever is decoded (from the emitted octets or any others) has other flags: a decoded rcode
+is below 16 -/
+theorem k3_never_roundtrips {m : Msg} (h3 : Finding.K3 m) {b : Bytes} {m' : Msg} {d : D}
+    (hd : decodeDns b = .ok (m', d)) : m'.flags ≠ m.flags := ApiOkConv.k3_never_roundtrips h3 hd
+
+/-- **K3, what is decoded instead**: the flags read back from the octets emitted for a message with an
+extended rcode are the original ones with `cd := true` and `rcode := rcode - 16` (general form of `K3_witness`) -/
+theorem k3_decoded_flags {m m' : Msg} {b : Bytes} {d : D} (h3 : Finding.K3 m) (hf : ApiOkFlags m.flags)
+    (hs : EncLim.ShapedMsg m) (h : encodeDns m = .ok b) (hd : decodeDns b = .ok (m', d)) :
+    m'.flags = { m.flags with cd := true, rcode := m.flags.rcode - 16 } := ApiOkConv.k3_decoded_flags h3 hf hs h hd
+
+/-- **K4a**: the SvcParam decoder never returns `PRIVATE { number }` for a registered number (0..=6, 65535):
+such a parameter is re-read as the registered kind or rejected -/
+theorem k4a_decoder_never_private {k : Nat} {d d' : D} {p : SvcParam} (h : decSvcParam k d = .ok (p, d'))
+    (hk : k ≤ 6 ∨ k = 65535) : ∀ x, p ≠ .priv k x := ApiOkConv.decSvcParam_not_priv h hk
+
+/-- K4a at the level of `RR::decode` / `Dns::decode`: no decoded record contains such a parameter -/
+theorem k4a_never_roundtrips {b : Bytes} (hb : b.length < 2 ^ 63) {rr' : RR} {d : D}
+    (hd : decodeRR b = .ok (rr', d)) {prio : Nat} {target : Name} {ps : List SvcParam}
+    (hrd : rr'.rd = .svcb prio target ps) {k : Nat} (hk : k ≤ 6 ∨ k = 65535) (x : Bytes) :
+    SvcParam.priv k x ∉ ps := ApiOkConv.decoded_no_registered_priv hb hd hrd hk x
+theorem k4a_msg_never_roundtrips {b : Bytes} {m' : Msg} {d : D} (hd : decodeDns b = .ok (m', d))
+    {rr' : RR} (hr : rr' ∈ EncLim.msgRRs m') {prio : Nat} {target : Name} {ps : List SvcParam}
+    (hrd : rr'.rd = .svcb prio target ps) {k : Nat} (hk : k ≤ 6 ∨ k = 65535) (x : Bytes) :
+    SvcParam.priv k x ∉ ps := ApiOkConv.decoded_msg_no_registered_priv hd hr hrd hk x
+
+/-- **K4b, element level**: the octets emitted for an API-constructible alias-form record, whatever its
+parameters, decode to the record with NO parameters (general form of `K4b_witness`) … -/
+theorem k4b_decodes_to {rr : RR} {target : Name} {ps : List SvcParam} {b : Bytes} (ha : ApiOkRR rr)
+    (hrd : rr.rd = .svcb 0 target ps) (h : encodeRR rr = .ok b) :
+    ∃ target' d, decodeRR b = .ok ({ rr with rd := .svcb 0 target' [] }, d) ∧ d.off = b.length ∧
+      ciEq target' target = true := ApiOkConv.k4b_decodes_to ha hrd h
+/-- … so with a non-empty parameter list the body never comes back, not even up to `norm` -/
+theorem k4b_never_roundtrips {rr : RR} {target : Name} {ps : List SvcParam} {b : Bytes} (ha : ApiOkRR rr)
+    (hrd : rr.rd = .svcb 0 target ps) (hne : ps ≠ []) (h : encodeRR rr = .ok b) {rr' : RR} {d : D}
+    (hd : decodeRR b = .ok (rr', d)) : rr'.rd.norm ≠ rr.rd.norm ∧ rr'.rd ≠ rr.rd :=
+  ApiOkConv.k4b_never_roundtrips ha hrd hne h hd
+
+/-- **K4b, message level**: every message is encoded exactly like the message in which the parameters of all
+alias-form records are dropped (`ApiOkConv.dropAlias`) … -/
+theorem k4b_encoded_as_dropped (m : Msg) : encodeDns (ApiOkConv.dropAlias m) = encodeDns m :=
+  ApiOkConv.encodeDns_dropAlias m
+/-- … which is what an API-constructible message outside K3, K4a, K4c decodes to; it differs from `m`
+(up to `norm`) whenever `m` is in K4b -/
+theorem k4b_msg_decodes_to {m : Msg} {b : Bytes} (ha : ApiOk m) (h3 : ¬ Finding.K3 m) (h4a : ¬ Finding.K4a m)
+    (h4c : ¬ Finding.K4c m) (h : encodeDns m = .ok b) :
+    ∃ m' d, decodeDns b = .ok (m', d) ∧ m'.norm = (ApiOkConv.dropAlias m).norm ∧
+      (Finding.K4b m → m'.norm ≠ m.norm) := ApiOkConv.k4b_msg_decodes_to ha h3 h4a h4c h
+
+/-- **K4c**: the decoder's `gpos` validator rejects the empty string … -/
+theorem gpos_empty_rejected : StrCheck.run .gpos [] = .error .gpos := ApiOkConv.gpos_empty_rejected
+/-- … and the octets that `RR::encode` emits for an API-constructible GPOS record with an empty longitude,
+latitude or altitude are not accepted by `RR::decode` AT ALL (general form of `K4c_witness`) -/
+theorem k4c_never_roundtrips {rr : RR} {b : Bytes} (ha : ApiOkRR rr) (hk : Finding.K4cRR rr)
+    (h : encodeRR rr = .ok b) (rr' : RR) (d : D) : decodeRR b ≠ .ok (rr', d) :=
+  ApiOkConv.k4c_never_decodes ha hk h rr' d
+
+/-- K4c at the MESSAGE level, partial. Full statement (not proved): `ApiOk m → Finding.K4c m →
+encodeDns m = .ok b → ∀ m' d, decodeDns b ≠ .ok (m', d)` — the emitted message is rejected. Proved: it never
+decodes to the same value (an instance of `class_never_decoded`). Missing for the full form: locating the
+GPOS record inside the emitted message when OTHER records of it may be ill-formed too (the wire
+specification of `encRRs` exists for well-formed records only), and aligning the decoder's record
+boundaries with the encoder's up to that record. -/
+theorem k4c_msg_never_roundtrips_partial {m : Msg} (hk : Finding.K4c m) {b : Bytes} {m' : Msg} {d : D}
+    (hd : decodeDns b = .ok (m', d)) : m'.norm ≠ m.norm :=
+  ApiOkConv.never_decoded (Or.inr (Or.inr (Or.inr hk))) hd
+
+/-- non-vacuity: the premises hold of the four witnesses -/
+example : ∀ m' d, decodeDns [18, 52, 129, 144, 0, 1, 0, 1, 0, 0, 0, 0, 1, 97, 0, 0, 1, 0, 1, 192, 12, 0, 1, 0, 1, 0, 0, 0,
+      60, 0, 4, 10, 0, 0, 1] = .ok (m', d) →
+    m'.flags = { ApiOk.k3Msg.flags with cd := true, rcode := ApiOk.k3Msg.flags.rcode - 16 } := fun _ _ hd =>
+  k3_decoded_flags ApiOk.k3Msg_spec.2.1 ApiOk.k3Msg_spec.1.2.1 (ApiOk.shapedMsg ApiOk.k3Msg_spec.1)
+    ApiOk.k3Msg_spec.2.2.2.2.2.2 hd
+example : ∃ target' d, decodeRR [0, 0, 64, 0, 1, 0, 0, 0, 0, 0, 5, 0, 0, 1, 97, 0] =
+    .ok ({ ApiOk.k4bRR with rd := .svcb 0 target' [] }, d) ∧ d.off = 16 ∧ ciEq target' [[97]] = true :=
+  k4b_decodes_to ApiOk.k4bRR_api rfl (K4b_witness.1.trans K4b_witness.2)
+example : ∀ rr' d, decodeRR [0, 0, 27, 0, 1, 0, 0, 0, 0, 0, 5, 0, 1, 49, 1, 50] ≠ .ok (rr', d) :=
+  k4c_never_roundtrips ApiOk.k4cRR_api ⟨rfl, [], [49], [50], rfl, Or.inl rfl⟩ K4c_witness.2.1
+example : (∃ m' d, decodeDns [18, 52, 129, 128, 0, 1, 0, 1, 0, 0, 0, 0, 1, 97, 0, 0, 1, 0, 1, 0, 0, 64, 0, 1, 0, 0, 0, 0,
+      0, 9, 0, 1, 0, 0, 3, 0, 2, 0, 80] = .ok (m', d) ∧ m'.norm = ApiOk.k4aMsg.norm) ↔
+    ¬ (Finding.K3 ApiOk.k4aMsg ∨ Finding.K4a ApiOk.k4aMsg ∨ Finding.K4b ApiOk.k4aMsg ∨ Finding.K4c ApiOk.k4aMsg) :=
+  api_roundtrip_iff ApiOk.k4aMsg_spec.1 ApiOk.k4aMsg_spec.2.2.2.2.2.2
 
 end C08
